@@ -11,6 +11,7 @@ per-namespace / per-type / per-route loops skip nothing.
 import ast
 import os
 
+from .. import totality
 from ..dataflow import defs
 from ..irattrs import IRAttrs
 from ..irflow import IRFlow
@@ -54,18 +55,8 @@ ASSUMPTIONS = [
     'jinja2 (the repository\'s own dependency) parses the templates exactly as at run time',
 ]
 
-DEFAULTABLE = frozenset({'Boolean', 'Bytes', 'Float32', 'Float64', 'Int32', 'Int64', 'UInt32',
-                         'UInt64', 'String', 'Timestamp'})
-
 # raise sites that are not class dispatch: (function short name, exception) -> reason
 CONFIG_PRECONDITIONS = {}
-
-
-def _origin_key(prov):
-    """Line-free key of a provenance string."""
-    import re
-    p = re.sub(r' \(.*\)$', '', prov)
-    return re.sub(r':\d+$', '', p)
 
 
 def _funcs(pm):
@@ -110,60 +101,15 @@ def run(pm, ctx):
                   '%s does not preserve aliases' % c, k[0].module.relpath,
                   msg='%s sets preserve_aliases: Alias values now reach every formatter' % c,
                   key='C17-R5|%s|preserve_aliases' % c)
-    attr_reads(pm, ctx, ia, flow)
+    totality.attr_reads(pm, ctx, ia, flow, 'C17-R5', 60, 'the Swift/ObjC backends')
     templates(pm, ctx, ia, bindings, tas, flow)
-    raises(pm, ctx, ia, flow)
-    tables(pm, ctx, ia, flow)
+    totality.raises(pm, ctx, ia, flow, 'C17-R1', 6, CONFIG_PRECONDITIONS, 'the Swift/ObjC backends')
+    totality.tables(pm, ctx, ia, flow, 'C17-R3', 8)
     doc_handlers(pm, ctx)
     escaping(pm, ctx, flow)
     coverage(pm, ctx, ia, tas)
     ctx.extra['templates'] = sorted({b.template for b in bindings})
     ctx.extra['functions_analysed'] = len(flow._all_funcs())
-
-
-# ---------------------------------------------------------------- R5 (python)
-def attr_reads(pm, ctx, ia, flow):
-    field_specific = ia.attrs_of('StructField') ^ ia.attrs_of('UnionField')
-    n_typed = n_untyped = 0
-    for f in flow._all_funcs():
-        seen = set()
-        for a in own_nodes(f.node):
-            if not (isinstance(a, ast.Attribute) and isinstance(a.ctx, ast.Load)):
-                continue
-            if a.attr not in ia.specific and a.attr not in field_specific:
-                continue
-            subj = unparse(a.value)
-            cs = flow.classes_at(f, a, a.value)
-            if cs is None:
-                n_untyped += 1
-                continue
-            n_typed += 1
-            lack = sorted(c for c in cs if a.attr not in ia.attrs_of(c))
-            base = 'C17-R5|%s|%s.%s' % (f.qualname, subj, a.attr)
-            if not lack:
-                if base not in seen:
-                    seen.add(base)
-                    ctx.check('C17-R5', True, '%s reads %s.%s' % (f.short, subj, a.attr),
-                              '%s:%d' % (f.module.relpath, a.lineno), key=base)
-                continue
-            # one finding per origin of the offending classes (call site / schema attribute)
-            by_origin = {}
-            for c in lack:
-                by_origin.setdefault(_origin_key(cs[c]), (cs[c], []))[1].append(c)
-            for ok_, (prov, classes) in sorted(by_origin.items()):
-                key = '%s|from %s' % (base, ok_)
-                if key in seen:
-                    continue
-                seen.add(key)
-                ctx.check('C17-R5', False, '%s reads %s.%s' % (f.short, subj, a.attr),
-                          '%s:%d' % (f.module.relpath, a.lineno),
-                          msg='%s.%s is read for %s, which %s not define it (AttributeError); the '
-                              'value comes from %s' % (subj, a.attr, ', '.join(classes),
-                                                       'does' if len(classes) == 1 else 'do', prov),
-                          key=key)
-    ctx.extra['python_attr_reads_typed'] = n_typed
-    ctx.extra['python_attr_reads_untyped'] = n_untyped
-    ctx.floor('C17-R5', n_typed, 60, 'typed IR attribute reads in the Swift/ObjC backends')
 
 
 # ---------------------------------------------------------------- R2 + template R5
@@ -298,177 +244,6 @@ def templates(pm, ctx, ia, bindings, tas, flow):
                           % (t, fct.subject, fct.attr, ', '.join(lack),
                              'does' if len(lack) == 1 else 'do'), key=key)
     ctx.extra['template_facts'] = {ta.b.template: len(ta.facts) for ta in tas}
-
-
-# ---------------------------------------------------------------- R1
-def _has_default_guarded(flow, f):
-    """Every call site of ``f`` (python and template) runs under a
-    ``<x>.has_default`` test on its argument."""
-    sites = flow.sites.get(f.qualname, [])
-    tsites = flow.template_sites.get(f.qualname, [])
-    if not sites and not tsites:
-        return False
-    for caller, call in sites:
-        if not call.args:
-            return False
-        want = unparse(call.args[0]) + '.has_default'
-        pi = path_info(caller.node)
-        if not any(unparse(e) == want and pol for e, pol in pi.at(call)):
-            return False
-    for fact in tsites:
-        if not getattr(fact, 'default_guarded', False):
-            return False
-    return True
-
-
-def raises(pm, ctx, ia, flow):
-    fam = ia.fam
-    literal_refused = True
-    # defaultable classes: derived part -- List/Map/Struct.check always raise
-    for c in sorted(ia.any - DEFAULTABLE):
-        chk = pm.lookup_method(fam.classes[c], 'check')
-        if c in ('List', 'Map', 'Struct'):
-            always = chk is not None and not any(isinstance(n, ast.Return)
-                                                 for n in own_nodes(chk.node)) and \
-                isinstance(chk.node.body[-1], ast.Raise)
-            literal_refused = literal_refused and always
-            ctx.check('C17-R1', always, '%s.check refuses every literal (no default possible)' % c,
-                      chk.loc if chk else fam.module.relpath,
-                      msg='%s.check can accept a literal again: %s fields may carry defaults, '
-                          'which fmt_default_value cannot render' % (c, c),
-                      key='C17-R1|defaultable|%s' % c)
-    sub = pm.func('stone.ir.data_types.Struct.set_enumerated_subtypes')
-    pi = path_info(sub.node)
-    nested_refused = any(isinstance(s, ast.If) and unparse(s.test) == 'self.parent_type' and
-                         len(s.body) == 1 and isinstance(s.body[0], ast.Raise) and
-                         'InvalidSpec' in unparse(s.body[0].exc) for s in sub.node.body)
-    n_sites = 0
-    for f in flow._all_funcs():
-        pi = path_info(f.node)
-        for n in own_nodes(f.node):
-            if isinstance(n, ast.Raise):
-                exc = n.exc
-                ename = dotted(exc.func) if isinstance(exc, ast.Call) else (dotted(exc) if exc
-                                                                            is not None else 're')
-                kind = 'raise %s' % ename
-            elif isinstance(n, ast.Assert):
-                kind = 'assert %s' % unparse(n.test)
-            else:
-                continue
-            n_sites += 1
-            where = '%s:%d' % (f.module.relpath, n.lineno)
-            key = 'C17-R1|%s|%s' % (f.qualname, kind)
-            atoms = list(pi.at(n))
-            if isinstance(n, ast.Assert):
-                atoms = atoms + [(n.test, False)]
-                if unparse(n.test) == 'len(tags) == 1':
-                    ctx.check('C17-R1', nested_refused,
-                              '%s: %s holds because nested enumerated subtypes are refused'
-                              % (f.short, kind), where,
-                              msg='Struct.set_enumerated_subtypes no longer refuses a subtype '
-                                  'that enumerates subtypes: tags of length 2 reach this assert',
-                              key=key)
-                    continue
-                if unparse(n.test) == 'not isinstance(o, dict)' and f.name == 'fmt_obj':
-                    ctx.check('C17-R1', literal_refused,
-                              '%s: %s holds because no default value is a dict' % (f.short, kind),
-                              where, msg='a struct or map field can carry a literal default '
-                                         'again: a dict reaches fmt_obj', key=key)
-                    continue
-            # candidate subjects: arguments of class tests among the atoms
-            subjects = []
-            for e, pol in atoms:
-                for x in ast.walk(e):
-                    if isinstance(x, ast.Call) and len(x.args) >= 1 and \
-                            isinstance(x.func, ast.Name):
-                        s = unparse(x.args[0])
-                        if class_test(pm, fam, f.module, x, s) is not None and s not in subjects:
-                            subjects.append(s)
-            if not subjects:
-                reason = CONFIG_PRECONDITIONS.get((f.short, kind))
-                if reason:
-                    ctx.exempt('C17-R1', '%s: %s' % (f.short, kind), where, reason)
-                    continue
-                ctx.check('C17-R1', False, '%s: %s is a dispatch default' % (f.short, kind), where,
-                          msg='%s can execute %s for an accepted spec: it is not guarded by a '
-                              'class dispatch (conditions: %s)'
-                              % (f.short, kind, ' and '.join(
-                                  ('' if p else 'not ') + unparse(e) for e, p in atoms) or 'none'),
-                          key=key)
-                continue
-            reach_all = {}
-            unknown = []
-            for s in subjects:
-                expr = ast.parse(s, mode='eval').body
-                for x in ast.walk(expr):
-                    for ch in ast.iter_child_nodes(x):
-                        ch._parent = x
-                seed = flow._seed(f, expr, 5, n)
-                if seed is None:
-                    unknown.append(s)
-                    continue
-                if f.name == 'fmt_default_value' and s.endswith('.data_type') and \
-                        _has_default_guarded(flow, f):
-                    seed = {c: 'a defaulted field' for c in seed if c in DEFAULTABLE}
-                cur = set(seed)
-                full = fam.universe()
-                for e, pol in atoms:
-                    t = class_test(pm, fam, f.module, e, s)
-                    if t is not None:
-                        cur &= (t if pol else full - t)
-                for c in cur:
-                    reach_all[c] = seed[c]
-            if unknown and not reach_all:
-                ctx.check('C17-R1', False, '%s: %s has a known universe' % (f.short, kind), where,
-                          msg='%s: cannot bound the classes of %s that reach %s (no resolvable '
-                              'call site)' % (f.short, ', '.join(unknown), kind), key=key)
-                continue
-            lack = sorted(reach_all)
-            ctx.check('C17-R1', not lack, '%s: %s is reached by no class' % (f.short, kind), where,
-                      msg='%s executes %s for %s (from %s)'
-                          % (f.short, kind, ', '.join(lack),
-                             '; '.join(sorted({reach_all[c] for c in lack})[:3])), key=key)
-    ctx.extra['raise_assert_sites'] = n_sites
-    ctx.floor('C17-R1', n_sites, 6, 'raise/assert sites in the Swift/ObjC backends')
-
-
-# ---------------------------------------------------------------- R3
-def tables(pm, ctx, ia, flow):
-    fam = ia.fam
-    n = 0
-    for f in flow._all_funcs():
-        for c in own_nodes(f.node):
-            if not (isinstance(c, ast.Call) and isinstance(c.func, ast.Attribute) and
-                    c.func.attr == 'get' and isinstance(c.func.value, ast.Name) and
-                    len(c.args) == 2):
-                continue
-            tab = f.module.assigns.get(c.func.value.id)
-            if not isinstance(tab, ast.Dict):
-                continue
-            keys = {fam.class_of_expr(f.module, k) for k in tab.keys}
-            if None in keys or not keys:
-                continue
-            arg = c.args[0]
-            if not (isinstance(arg, ast.Attribute) and arg.attr == '__class__'):
-                continue
-            n += 1
-            cs = flow.classes_at(f, c, arg.value)
-            where = '%s:%d' % (f.module.relpath, c.lineno)
-            key = 'C17-R3|%s|%s' % (f.qualname, c.func.value.id)
-            if cs is None:
-                ctx.check('C17-R3', False, '%s: lookup in %s has a known universe'
-                          % (f.short, c.func.value.id), where,
-                          msg='cannot bound the classes looked up in %s by %s'
-                              % (c.func.value.id, f.short), key=key)
-                continue
-            lack = sorted(set(cs) - keys)
-            ctx.check('C17-R3', not lack, '%s: every class looked up in %s is a key'
-                      % (f.short, c.func.value.id), where,
-                      msg='%s looks up %s in %s, which has no such key: the default %s is '
-                          'emitted as if it were a declared type (from %s)'
-                          % (f.short, ', '.join(lack), c.func.value.id, unparse(c.args[1]),
-                             '; '.join(sorted({cs[x] for x in lack})[:3])), key=key)
-    ctx.floor('C17-R3', n, 8, 'class-keyed table lookups with a default')
 
 
 # ---------------------------------------------------------------- R4
